@@ -269,7 +269,7 @@ pub fn c13_binary_part(ctx: &Ctx, acc: &mut Acc) {
         acc.inconclusive("program pool too small");
         return;
     }
-    let n = ctx.tier.pick(30u64, 400u64);
+    let n = ctx.tier.pick(30u64, 4000u64);
     let reps = ctx.tier.pick(4usize, 8usize);
     run_workload(ctx, acc, "binary-determinism", n, |k, rng, acc| {
         let ents = gen_tree_eligible(rng, &pool, 0, 6, 2);
